@@ -664,82 +664,6 @@ Proof.
   - intros g u [_ [X _]]. apply keyof_set_timer. intros ->. congruence.
 Qed.
 
-(* ---- the full state invariant *)
-Record GInv (st : state) : Prop := {
-  gi_heaps : HInvs st;
-  gi_null : t_armed (tm st 0) = false;
-  gi_marker : forall t, t_armed (tm st t) = true -> Z.land (t_pending (tm st t)) 1 = 0;
-  gi_tgt : forall t, t_armed (tm st t) = true -> t_target (tm st t) < INT64_MAX
-}.
-
-Lemma needs_rearm_tgt x : needs_rearm x = true -> t_target x < INT64_MAX.
-Proof. unfold needs_rearm. destruct (t_susp x); [discriminate|]. intros H. apply andb_true_iff in H. lia. Qed.
-
-(* a generic way to re-establish the three per-timer clauses: only timer t changed *)
-Lemma GInv_intro st st' t :
-  GInv st -> HInvs st' -> t <> 0 -> (forall u, u <> t -> tm st' u = tm st u) ->
-  (t_armed (tm st' t) = true -> Z.land (t_pending (tm st' t)) 1 = 0 /\ t_target (tm st' t) < INT64_MAX) ->
-  GInv st'.
-Proof.
-  intros G H Nz Ho Ht. constructor; auto.
-  - rewrite Ho by auto. apply G.
-  - intros u A. destruct (Z.eq_dec u t) as [->|N]; [apply Ht; auto|]. rewrite Ho in * by auto. apply G; auto.
-  - intros u A. destruct (Z.eq_dec u t) as [->|N]; [apply Ht; auto|]. rewrite Ho in * by auto. apply G; auto.
-Qed.
-
-Lemma resume_G st t :
-  GInv st -> t <> 0 -> room st 1 -> Z.land (t_pending (tm st t)) 1 = 0 -> GInv (resume st t).
-Proof.
-  intros G Nz R Hp. destruct (resume_X st t (HInvs_X _ _ (gi_heaps _ G)) Nz R) as [H _].
-  apply (GInv_intro st _ t G H Nz (fun u N => resume_other st t u N)).
-  intros A. destruct (resume_armed st t) as [Ea _]. rewrite Ea in A.
-  destruct (resume_vals st t t) as (_ & _ & Et & _ & _ & Ep & _). rewrite Et, Ep. split; auto. apply needs_rearm_tgt; auto.
-Qed.
-
-Lemma disarm_G st t : GInv st -> t <> 0 -> t_armed (tm st t) = true -> GInv (disarm st t).
-Proof.
-  intros G Nz A. assert (M : member st (t_ident (tm st t)) t) by (unfold member; auto).
-  destruct (disarm_X st t (HInvs_X _ _ (gi_heaps _ G)) M) as [H _].
-  apply (GInv_intro st _ t G H Nz (fun u N => disarm_other st t u N)).
-  rewrite disarm_tm, Z.eqb_refl. simpl. discriminate.
-Qed.
-
-Lemma unregister_G st t : GInv st -> t <> 0 -> GInv (unregister st t).
-Proof.
-  intros G Nz. unfold unregister.
-  assert (G1 : GInv (if t_armed (tm st t) then disarm st t else st) /\
-               t_armed (tm (if t_armed (tm st t) then disarm st t else st) t) = false).
-  { destruct (t_armed (tm st t)) eqn:A; [split; [apply disarm_G; auto|rewrite disarm_tm, Z.eqb_refl; reflexivity]|auto]. }
-  destruct G1 as [G1 A1]. set (st1 := if t_armed (tm st t) then disarm st t else st) in *.
-  apply (GInv_intro st1 _ t G1); auto.
-  - apply HInvs_set_notarmed; auto. apply G1.
-  - intros u N. apply tm_set_timer_neq; auto.
-  - rewrite tm_set_timer_eq. simpl. congruence.
-Qed.
-
-Lemma configure_G st t : GInv st -> t <> 0 -> room st 1 -> GInv (configure st t).
-Proof.
-  intros G Nz R. unfold configure. destruct (t_cfg (tm st t)) as [[[[c tg] dl] itv]|]; auto.
-  set (x1 := with_pending _ 0).
-  assert (Ea : t_armed x1 = t_armed (tm st t) /\ t_ident x1 = t_ident (tm st t) /\ t_pending x1 = 0).
-  { unfold x1. destruct (negb (c =? t_clock (tm st t))); simpl; auto. }
-  destruct Ea as [Ea [Ei Ep]].
-  pose proof (HInvs_set_values st t x1 (gi_heaps _ G) Ea Ei) as HX.
-  set (st1 := set_timer st t x1) in *.
-  assert (R1 : room st1 1) by exact R.
-  destruct (t_armed x1) eqn:A.
-  - destruct (resume_X st1 t HX Nz R1) as [H _].
-    apply (GInv_intro st _ t G H Nz).
-    + intros u N. rewrite resume_other by auto. apply tm_set_timer_neq; auto.
-    + intros A'. destruct (resume_armed st1 t) as [E1 _]. rewrite E1 in A'.
-      destruct (resume_vals st1 t t) as (_ & _ & Et & _ & _ & Ep' & _). rewrite Et, Ep'.
-      unfold st1 in *. rewrite tm_set_timer_eq in *. rewrite Ep. split; [reflexivity|]. apply needs_rearm_tgt; auto.
-  - apply (GInv_intro st _ t G); auto.
-    + eapply HInvsX_notarmed; eauto. unfold st1. rewrite tm_set_timer_eq. auto.
-    + intros u N. apply tm_set_timer_neq; auto.
-    + unfold st1. rewrite tm_set_timer_eq. congruence.
-Qed.
-
 Section Parity.
 Local Ltac Zify.zify_post_hook ::= Z.div_mod_to_equations.
 Lemma land1_mod x : Z.land x 1 = x mod 2.
@@ -752,64 +676,141 @@ Proof.
 Qed.
 End Parity.
 
-(* room bookkeeping for the composed operations *)
-Lemma resume_room st t k : GInv st -> t <> 0 -> room st (k + 1) -> 0 <= k -> room (resume st t) k.
+Lemma needs_rearm_tgt x : needs_rearm x = true -> t_target x < INT64_MAX.
+Proof. unfold needs_rearm. destruct (t_susp x); [discriminate|]. intros H. apply andb_true_iff in H. lia. Qed.
+
+Lemma Inv_set_np key S h b : Inv key S h -> Inv key S (set_np h b).
+Proof. intros I. eapply Inv_ext; eauto. Qed.
+
+(* ---- the full state invariant, for a system with timer records 1..N (N <= 2^30 - 12: the heaps can hold them all) *)
+Section Sys.
+Variable N : Z.
+Hypothesis HN : 0 <= N /\ 2 * N + 2 <= CAPMAX.
+
+Record GInv (st : state) : Prop := {
+  gi_heaps : HInvs st;
+  gi_ids : forall t, t_armed (tm st t) = true -> 1 <= t <= N;
+  gi_marker : forall t, t_armed (tm st t) = true -> Z.land (t_pending (tm st t)) 1 = 0;
+  gi_tgt : forall t, t_armed (tm st t) = true -> t_target (tm st t) < INT64_MAX
+}.
+
+Lemma HInvs_room st : HInvs st -> (forall t, t_armed (tm st t) = true -> 1 <= t <= N) -> room st 1.
 Proof.
-  intros G Nz R K. destruct (resume_X st t (HInvs_X _ _ (gi_heaps _ G)) Nz (room_weaken st (k + 1) 1 R ltac:(lia))) as [_ RR]. auto.
+  intros H Hid i. pose proof (count_bound _ _ _ N (proj1 HN) (H i)) as B.
+  specialize (B ltac:(intros t [_ [A _]]; auto)). lia.
 Qed.
-Lemma disarm_room st t k : GInv st -> t <> 0 -> t_armed (tm st t) = true -> room st k -> room (disarm st t) k.
+Lemma GInv_room st : GInv st -> room st 1.
+Proof. intros G. apply HInvs_room; apply G. Qed.
+
+(* a generic way to re-establish the per-timer clauses: only timer t changed *)
+Lemma GInv_intro st st' t :
+  GInv st -> HInvs st' -> 1 <= t <= N -> (forall u, u <> t -> tm st' u = tm st u) ->
+  (t_armed (tm st' t) = true -> Z.land (t_pending (tm st' t)) 1 = 0 /\ t_target (tm st' t) < INT64_MAX) ->
+  GInv st'.
 Proof.
-  intros G Nz A R. assert (M : member st (t_ident (tm st t)) t) by (unfold member; auto).
-  destruct (disarm_X st t (HInvs_X _ _ (gi_heaps _ G)) M) as [_ RR]. auto.
+  intros G H Ht Ho Hp. constructor; auto.
+  - intros u A. destruct (Z.eq_dec u t) as [->|Nu]; auto. rewrite Ho in A by auto. apply G; auto.
+  - intros u A. destruct (Z.eq_dec u t) as [->|Nu]; [apply Hp; auto|]. rewrite Ho in * by auto. apply G; auto.
+  - intros u A. destruct (Z.eq_dec u t) as [->|Nu]; [apply Hp; auto|]. rewrite Ho in * by auto. apply G; auto.
 Qed.
-Lemma configure_room st t k : GInv st -> t <> 0 -> room st (k + 1) -> 0 <= k -> room (configure st t) k.
+
+Lemma resume_G st t :
+  GInv st -> 1 <= t <= N -> Z.land (t_pending (tm st t)) 1 = 0 -> GInv (resume st t).
 Proof.
-  intros G Nz R K. unfold configure. destruct (t_cfg (tm st t)) as [[[[c tg] dl] itv]|]; [|eapply room_weaken; eauto; lia].
+  intros G Ht Hp. assert (Nz : t <> 0) by lia.
+  destruct (resume_X st t (HInvs_X _ _ (gi_heaps _ G)) Nz (GInv_room _ G)) as [H _].
+  apply (GInv_intro st _ t G H Ht (fun u Nu => resume_other st t u Nu)).
+  intros A. destruct (resume_armed st t) as [Ea _]. rewrite Ea in A.
+  destruct (resume_vals st t t) as (_ & _ & Et & _ & _ & Ep & _). rewrite Et, Ep. split; auto. apply needs_rearm_tgt; auto.
+Qed.
+
+Lemma disarm_G st t : GInv st -> t_armed (tm st t) = true -> GInv (disarm st t).
+Proof.
+  intros G A. pose proof (gi_ids _ G t A) as Ht. assert (Nz : t <> 0) by lia.
+  assert (M : member st (t_ident (tm st t)) t) by (unfold member; auto).
+  destruct (disarm_X st t (HInvs_X _ _ (gi_heaps _ G)) M) as [H _].
+  apply (GInv_intro st _ t G H Ht (fun u Nu => disarm_other st t u Nu)).
+  rewrite disarm_tm, Z.eqb_refl. simpl. discriminate.
+Qed.
+
+Lemma set_same_G st t v :
+  GInv st -> 1 <= t <= N -> t_armed v = t_armed (tm st t) -> t_ident v = t_ident (tm st t) ->
+  t_target v = t_target (tm st t) -> t_deadline v = t_deadline (tm st t) ->
+  (t_armed v = true -> Z.land (t_pending v) 1 = 0) -> GInv (set_timer st t v).
+Proof.
+  intros G Ht Ea Ei Et Ed Hp. apply (GInv_intro st _ t G); auto.
+  - apply HInvs_set_same; auto. apply G.
+  - intros u Nu. apply tm_set_timer_neq; auto.
+  - rewrite tm_set_timer_eq. intros A. split; auto. rewrite Et. apply G. congruence.
+Qed.
+
+Lemma set_notarmed_G st t v :
+  GInv st -> 1 <= t <= N -> t_armed (tm st t) = false -> t_armed v = false -> GInv (set_timer st t v).
+Proof.
+  intros G Ht A Av. apply (GInv_intro st _ t G); auto.
+  - apply HInvs_set_notarmed; auto. apply G.
+  - intros u Nu. apply tm_set_timer_neq; auto.
+  - rewrite tm_set_timer_eq. congruence.
+Qed.
+
+Lemma unregister_G st t : GInv st -> 1 <= t <= N -> GInv (unregister st t).
+Proof.
+  intros G Ht. unfold unregister.
+  assert (G1 : GInv (if t_armed (tm st t) then disarm st t else st) /\
+               t_armed (tm (if t_armed (tm st t) then disarm st t else st) t) = false).
+  { destruct (t_armed (tm st t)) eqn:A; [split; [apply disarm_G; auto|rewrite disarm_tm, Z.eqb_refl; reflexivity]|auto]. }
+  destruct G1 as [G1 A1]. apply set_notarmed_G; auto.
+Qed.
+
+Lemma configure_G st t : GInv st -> 1 <= t <= N -> GInv (configure st t).
+Proof.
+  intros G Ht. assert (Nz : t <> 0) by lia.
+  unfold configure. destruct (t_cfg (tm st t)) as [[[[c tg] dl] itv]|]; auto.
   set (x1 := with_pending _ 0).
-  assert (Ea : t_armed x1 = t_armed (tm st t) /\ t_ident x1 = t_ident (tm st t)).
+  assert (Ea : t_armed x1 = t_armed (tm st t) /\ t_ident x1 = t_ident (tm st t) /\ t_pending x1 = 0).
   { unfold x1. destruct (negb (c =? t_clock (tm st t))); simpl; auto. }
-  destruct Ea as [Ea Ei].
+  destruct Ea as [Ea [Ei Ep]].
   pose proof (HInvs_set_values st t x1 (gi_heaps _ G) Ea Ei) as HX.
-  destruct (t_armed x1); [|eapply room_weaken; [exact R|lia]].
-  destruct (resume_X (set_timer st t x1) t HX Nz (room_weaken st (k + 1) 1 R ltac:(lia))) as [_ RR]. apply RR. exact R.
+  set (st1 := set_timer st t x1) in *.
+  assert (R1 : room st1 1) by exact (GInv_room _ G).
+  destruct (t_armed x1) eqn:A.
+  - destruct (resume_X st1 t HX Nz R1) as [H _].
+    apply (GInv_intro st _ t G H Ht).
+    + intros u Nu. rewrite resume_other by auto. apply tm_set_timer_neq; auto.
+    + intros A'. destruct (resume_armed st1 t) as [E1 _]. rewrite E1 in A'.
+      destruct (resume_vals st1 t t) as (_ & _ & Et & _ & _ & Ep' & _). rewrite Et, Ep'.
+      unfold st1 in *. rewrite tm_set_timer_eq in *. rewrite Ep. split; [reflexivity|]. apply needs_rearm_tgt; auto.
+  - apply (GInv_intro st _ t G); auto.
+    + eapply HInvsX_notarmed; eauto. unfold st1. rewrite tm_set_timer_eq. auto.
+    + intros u Nu. apply tm_set_timer_neq; auto.
+    + unfold st1. rewrite tm_set_timer_eq. congruence.
 Qed.
 
 Lemma min_member st tidx : GInv st -> h_slot (s_heaps st tidx) 0 <> 0 -> member st tidx (h_slot (s_heaps st tidx) 0).
 Proof.
-  intros G N. pose proof (gi_heaps _ G tidx) as I.
+  intros G Nm. pose proof (gi_heaps _ G tidx) as I.
   destruct (Z.eq_dec (h_count (s_heaps st tidx)) 0) as [E|E].
-  - exfalso. apply N. apply (iv_zero _ _ _ I). lia.
+  - exfalso. apply Nm. apply (iv_zero _ _ _ I). lia.
   - destruct (iv_cnt _ _ _ I) as [C _]. apply (hi_fwd _ _ _ _ (iv_h0 _ _ _ I) 0); [lia|reflexivity].
 Qed.
 
-Lemma set_pending_notarmed_G st t p :
-  GInv st -> t <> 0 -> t_armed (tm st t) = false -> GInv (set_timer st t (with_pending (tm st t) p)).
+Lemma run_step_G st tidx now :
+  GInv st -> h_slot (s_heaps st tidx) 0 <> 0 ->
+  GInv (fst (run_step st tidx now (h_slot (s_heaps st tidx) 0))).
 Proof.
-  intros G Nz A. apply (GInv_intro st _ t G); auto.
-  - apply HInvs_set_notarmed; auto. apply G.
-  - intros u N. apply tm_set_timer_neq; auto.
-  - rewrite tm_set_timer_eq. simpl. congruence.
-Qed.
-
-Lemma run_step_G st tidx now k :
-  GInv st -> h_slot (s_heaps st tidx) 0 <> 0 -> room st (k + 1) -> 0 <= k ->
-  let st' := fst (run_step st tidx now (h_slot (s_heaps st tidx) 0)) in
-  GInv st' /\ room st' k.
-Proof.
-  intros G N R K. set (dr := h_slot (s_heaps st tidx) 0) in *.
-  destruct (min_member st tidx G N) as [Nz [A Id]]. fold dr in Nz, A, Id.
-  assert (R0 : room st k) by (eapply room_weaken; eauto; lia).
+  intros G Nm. set (dr := h_slot (s_heaps st tidx) 0) in *.
+  destruct (min_member st tidx G Nm) as [Nz [A Id]]. fold dr in Nz, A, Id.
+  pose proof (gi_ids _ G dr A) as Ht.
   unfold run_step. destruct (t_after (tm st dr)).
-  - (* dispatch_after timer *)
-    cbn [fst]. pose proof (disarm_G st dr G Nz A) as G1.
+  - cbn [fst]. pose proof (disarm_G st dr G A) as G1.
     assert (A1 : t_armed (tm (disarm st dr) dr) = false) by (rewrite disarm_tm, Z.eqb_refl; reflexivity).
-    split; [apply set_pending_notarmed_G; auto|]. apply (disarm_room st dr k G Nz A R0).
+    apply set_notarmed_G; auto.
   - destruct (t_cfg (tm st dr)) as [cf|] eqn:Cf.
-    + cbn [fst]. split; [apply configure_G; auto; apply (room_weaken st (k + 1) 1 R); lia|apply configure_room; auto].
+    + cbn [fst]. apply configure_G; auto.
     + destruct (nz (t_pending (tm st dr))).
-      * cbn [fst]. pose proof (disarm_G st dr G Nz A) as G1.
+      * cbn [fst]. pose proof (disarm_G st dr G A) as G1.
         assert (A1 : t_armed (tm (disarm st dr) dr) = false) by (rewrite disarm_tm, Z.eqb_refl; reflexivity).
-        split; [apply set_pending_notarmed_G; auto|]. apply (disarm_room st dr k G Nz A R0).
+        apply set_notarmed_G; auto.
       * destruct (compute_missed _ _ _ _ _) as [[cnt tg] dl].
         set (x1 := with_values (tm st dr) tg dl (t_interval (tm st dr))).
         set (st1 := set_timer st dr x1).
@@ -817,66 +818,50 @@ Proof.
         assert (T1 : tm st1 dr = x1) by apply tm_set_timer_eq.
         rewrite T1.
         destruct (needs_rearm x1) eqn:W; cbn [fst].
-        -- (* stays armed: heap update *)
-           assert (Hid : t_armed (tm st1 dr) = true -> t_ident (tm st1 dr) = tidx) by (rewrite T1; intros _; exact Id).
-           destruct (arm_X st1 dr tidx HX Nz Hid (room_weaken st (k + 1) 1 R ltac:(lia))) as [H2 RR].
+        -- assert (Hid : t_armed (tm st1 dr) = true -> t_ident (tm st1 dr) = tidx) by (rewrite T1; intros _; exact Id).
+           destruct (arm_X st1 dr tidx HX Nz Hid (GInv_room _ G)) as [H2 _].
            set (st2 := arm st1 dr tidx) in *.
            assert (T2 : tm st2 dr = x1).
            { unfold st2. rewrite arm_tm, T1. unfold x1 at 1. simpl. rewrite A. reflexivity. }
-           split.
-           ++ apply (GInv_intro st _ dr G); auto.
-              ** apply HInvs_set_same; auto.
-              ** intros u Nu. rewrite tm_set_timer_neq by auto. unfold st2. rewrite arm_other by auto.
-                 apply tm_set_timer_neq; auto.
-              ** intros _. rewrite tm_set_timer_eq, T2. simpl. split; [apply even_pending|].
-                 apply (needs_rearm_tgt x1 W).
-           ++ intros i. change (s_heaps (set_timer st2 dr (with_pending (tm st2 dr) (u64 (Z.shiftl cnt 1)))) i) with (s_heaps st2 i).
-              apply RR. exact R.
-        -- (* leaves the heap *)
-           assert (M1 : member st1 (t_ident (tm st1 dr)) dr).
+           apply (GInv_intro st _ dr G); auto.
+           ++ apply HInvs_set_same; auto.
+           ++ intros u Nu. rewrite tm_set_timer_neq by auto. unfold st2. rewrite arm_other by auto.
+              apply tm_set_timer_neq; auto.
+           ++ intros _. rewrite tm_set_timer_eq, T2. simpl. split; [apply even_pending|].
+              apply (needs_rearm_tgt x1 W).
+        -- assert (M1 : member st1 (t_ident (tm st1 dr)) dr).
            { rewrite T1. unfold member. rewrite T1. unfold x1; simpl. auto. }
-           destruct (disarm_X st1 dr HX M1) as [H2 RR].
+           destruct (disarm_X st1 dr HX M1) as [H2 _].
            set (st2 := disarm st1 dr) in *.
            assert (A2 : t_armed (tm st2 dr) = false) by (unfold st2; rewrite disarm_tm, Z.eqb_refl; reflexivity).
-           split.
-           ++ apply (GInv_intro st _ dr G); auto.
-              ** apply HInvs_set_notarmed; auto.
-              ** intros u Nu. rewrite tm_set_timer_neq by auto. unfold st2. rewrite disarm_other by auto.
-                 apply tm_set_timer_neq; auto.
-              ** rewrite tm_set_timer_eq. cbn [t_armed with_pending]. rewrite A2. discriminate.
-           ++ intros i. change (s_heaps (set_timer st2 dr (with_pending (tm st2 dr) (Z.lor (u64 (Z.shiftl cnt 1)) DISPATCH_TIMER_DISARMED_MARKER))) i) with (s_heaps st2 i).
-              apply RR. exact R0.
+           apply (GInv_intro st _ dr G); auto.
+           ++ apply HInvs_set_notarmed; auto.
+           ++ intros u Nu. rewrite tm_set_timer_neq by auto. unfold st2. rewrite disarm_other by auto.
+              apply tm_set_timer_neq; auto.
+           ++ rewrite tm_set_timer_eq. cbn [t_armed with_pending]. rewrite A2. discriminate.
 Qed.
 
 Theorem run_loop_G : forall fuel st tidx now ev st' ev' fin,
-  GInv st -> room st (Z.of_nat fuel) ->
-  run_loop fuel st tidx now ev = (st', ev', fin) -> GInv st'.
+  GInv st -> run_loop fuel st tidx now ev = (st', ev', fin) -> GInv st'.
 Proof.
-  induction fuel as [|fuel IH]; intros st tidx now ev st' ev' fin G R E; cbn [run_loop] in E.
+  induction fuel as [|fuel IH]; intros st tidx now ev st' ev' fin G E; cbn [run_loop] in E.
   - inversion E; subst; auto.
   - unfold DTH_TARGET_ID in E.
-    destruct (Z.eqb_spec (h_slot (s_heaps st tidx) 0) 0) as [Z0|N]; [inversion E; subst; auto|].
+    destruct (Z.eqb_spec (h_slot (s_heaps st tidx) 0) 0) as [Z0|Nm]; [inversion E; subst; auto|].
     destruct (t_target (tm st (h_slot (s_heaps st tidx) 0)) >? now); [inversion E; subst; auto|].
-    destruct (run_step_G st tidx now (Z.of_nat fuel) G N ltac:(rewrite Nat2Z.inj_succ in R; exact R) ltac:(lia)) as [G1 R1].
+    pose proof (run_step_G st tidx now G Nm) as G1.
     destruct (run_step st tidx now _) as [st1 e1]. cbn [fst] in *. eapply IH; eauto.
 Qed.
 
 (* run fixpoint, with no hypothesis about the final heap *)
 Theorem run_fixpoint_G st tidx now st' ev :
-  GInv st -> room st (h_count (s_heaps st tidx) + 1) ->
-  timers_run st tidx now = (st', ev, true) ->
+  GInv st -> timers_run st tidx now = (st', ev, true) ->
   GInv st' /\ forall t, member st' tidx t -> now < t_target (tm st' t).
 Proof.
-  intros G R E. unfold timers_run in E.
-  assert (Hc : 0 <= h_count (s_heaps st tidx)) by (destruct (iv_cnt _ _ _ (gi_heaps _ G tidx)); lia).
-  assert (G' : GInv st').
-  { eapply run_loop_G; eauto. rewrite Nat2Z.inj_add, Z2Nat.id by lia. exact R. }
+  intros G E. unfold timers_run in E.
+  assert (G' : GInv st') by (eapply run_loop_G; eauto).
   split; auto. eapply run_fixpoint; eauto. apply G'.
 Qed.
-
-(* ---- the remaining operations *)
-Lemma Inv_set_np key S h b : Inv key S h -> Inv key S (set_np h b).
-Proof. intros I. eapply Inv_ext; eauto. Qed.
 
 Lemma HInvs_heaps_np st hs' (hm : Z -> bool) (kt : Z -> Z) d :
   HInvs st -> (forall i, exists b, hs' i = set_np (s_heaps st i) b \/ hs' i = s_heaps st i) ->
@@ -885,54 +870,34 @@ Proof.
   intros H E i. specialize (H i). destruct (E i) as [b [X|X]]; unfold member, tm in *; simpl; rewrite X; auto.
   apply Inv_set_np; auto.
 Qed.
-
 Lemma GInv_heaps_np st hs' hm kt d :
   GInv st -> (forall i, exists b, hs' i = set_np (s_heaps st i) b \/ hs' i = s_heaps st i) ->
   GInv (mkS hs' hm kt d (s_timers st)).
-Proof.
-  intros G E. constructor; try apply G. apply HInvs_heaps_np; auto. apply G.
-Qed.
-
-Lemma updf_np_cases (hs : Z -> heap) tidx b : forall i, exists b', updf hs tidx (set_np (hs tidx) b) i = set_np (hs i) b' \/ updf hs tidx (set_np (hs tidx) b) i = hs i.
+Proof. intros G E. constructor; try apply G. apply HInvs_heaps_np; auto. apply G. Qed.
+Lemma updf_np_cases (hs : Z -> heap) tidx b :
+  forall i, exists b', updf hs tidx (set_np (hs tidx) b) i = set_np (hs i) b' \/ updf hs tidx (set_np (hs tidx) b) i = hs i.
 Proof. intros i. exists b. unfold updf. destruct (Z.eqb_spec i tidx) as [->|]; auto. Qed.
+
+Lemma set_dirty_G st b : GInv st -> GInv (set_dirty st b).
+Proof. intros G. constructor; apply G. Qed.
 
 Lemma program_G st tidx now : GInv st -> GInv (fst (program st tidx now)).
 Proof.
   intros G. unfold program. destruct (get_delay st tidx now) as [delay leeway].
-  assert (G1 : GInv (if delay =? 0 then set_dirty st true else st)).
-  { destruct (delay =? 0); auto. constructor; apply G. }
+  assert (G1 : GInv (if delay =? 0 then set_dirty st true else st)) by (destruct (delay =? 0); auto using set_dirty_G).
   set (st1 := if delay =? 0 then set_dirty st true else st) in *.
-  assert (Hh : s_heaps st1 = s_heaps st /\ s_timers st1 = s_timers st) by (unfold st1; destruct (delay =? 0); auto).
   destruct ((delay =? 0) || (delay >=? INT64_MAX)); cbn [fst];
     apply GInv_heaps_np; auto; apply updf_np_cases.
 Qed.
+Lemma program_if_needed_G st tidx now : GInv st -> GInv (fst (program_if_needed st tidx now)).
+Proof. intros G. unfold program_if_needed. destruct (h_np _); auto. apply program_G; auto. Qed.
 
 Lemma kernel_expired_G st tidx : GInv st -> GInv (kernel_expired st tidx).
 Proof. intros G. unfold kernel_expired. apply GInv_heaps_np; auto. apply updf_np_cases. Qed.
 
-Lemma set_same_G st t v :
-  GInv st -> t <> 0 -> t_armed v = t_armed (tm st t) -> t_ident v = t_ident (tm st t) ->
-  t_target v = t_target (tm st t) -> t_deadline v = t_deadline (tm st t) ->
-  (t_armed v = true -> Z.land (t_pending v) 1 = 0) -> GInv (set_timer st t v).
+Lemma latch_G st t now : GInv st -> 1 <= t <= N -> GInv (fst (latch st t now)).
 Proof.
-  intros G Nz Ea Ei Et Ed Hp. apply (GInv_intro st _ t G); auto.
-  - apply HInvs_set_same; auto. apply G.
-  - intros u N. apply tm_set_timer_neq; auto.
-  - rewrite tm_set_timer_eq. intros A. split; auto. rewrite Et. apply G. congruence.
-Qed.
-
-Lemma set_notarmed_G st t v :
-  GInv st -> t <> 0 -> t_armed (tm st t) = false -> t_armed v = false -> GInv (set_timer st t v).
-Proof.
-  intros G Nz A Av. apply (GInv_intro st _ t G); auto.
-  - apply HInvs_set_notarmed; auto. apply G.
-  - intros u N. apply tm_set_timer_neq; auto.
-  - rewrite tm_set_timer_eq. congruence.
-Qed.
-
-Lemma latch_G st t now : GInv st -> t <> 0 -> GInv (fst (latch st t now)).
-Proof.
-  intros G Nz. unfold latch. set (x := tm st t).
+  intros G Ht. unfold latch. set (x := tm st t).
   destruct (t_armed x) eqn:A.
   - pose proof (gi_marker _ G t A) as M. fold x in M. unfold DISPATCH_TIMER_DISARMED_MARKER. rewrite M.
     cbn [nz Z.eqb negb fst]. apply set_same_G; auto.
@@ -940,72 +905,101 @@ Proof.
       cbn [fst]; apply set_notarmed_G; auto.
 Qed.
 
+(* the manager's timer pass *)
+Lemma timers_run_G st tidx now : GInv st -> GInv (fst (fst (timers_run st tidx now))).
+Proof.
+  intros G. destruct (timers_run st tidx now) as [[st' ev] fin] eqn:E. cbn [fst].
+  unfold timers_run in E. eapply run_loop_G; eauto.
+Qed.
+Lemma drain_pass_G st nows : GInv st -> GInv (fst (fst (fst (drain_pass st nows)))).
+Proof.
+  intros G. unfold drain_pass, run_all, program_all.
+  pose proof (timers_run_G st 0 (nows 0) G) as G0. destruct (timers_run st 0 (nows 0)) as [[s0 e0] f0]. cbn [fst] in G0.
+  pose proof (timers_run_G s0 1 (nows 1) G0) as G1. destruct (timers_run s0 1 (nows 1)) as [[s1 e1] f1]. cbn [fst] in G1.
+  pose proof (timers_run_G s1 2 (nows 2) G1) as G2. destruct (timers_run s1 2 (nows 2)) as [[s2 e2] f2]. cbn [fst] in G2.
+  pose proof (set_dirty_G s2 false G2) as G3.
+  pose proof (program_if_needed_G _ 0 (nows 0) G3) as P0. destruct (program_if_needed (set_dirty s2 false) 0 (nows 0)) as [p0 c0]. cbn [fst] in P0.
+  pose proof (program_if_needed_G _ 1 (nows 1) P0) as P1. destruct (program_if_needed p0 1 (nows 1)) as [p1 c1]. cbn [fst] in P1.
+  pose proof (program_if_needed_G _ 2 (nows 2) P1) as P2. destruct (program_if_needed p1 2 (nows 2)) as [p2 c2]. cbn [fst] in P2.
+  exact P2.
+Qed.
+Lemma drain_G : forall fuel st nows ev calls, GInv st -> GInv (fst (fst (fst (drain fuel st nows ev calls)))).
+Proof.
+  induction fuel as [|fuel IH]; intros st nows ev calls G; cbn [drain]; auto.
+  pose proof (drain_pass_G st nows G) as G1.
+  destruct (drain_pass st nows) as [[[st' e] c] fin]. cbn [fst] in G1.
+  destruct (negb fin); auto. destruct (s_dirty st'); auto.
+Qed.
+
 (* what the callers of each operation guarantee (src/source.c, src/event/event.c) *)
 Definition guard (st : state) (o : top) : Prop :=
   match o with
-  | TNew t _ => t <> 0
-  | TAfter t _ _ => t <> 0 /\ t_armed (tm st t) = false         (* _dispatch_after sets the values before activation *)
-  | TCfg t _ _ _ _ => t <> 0
-  | TReg t => t <> 0
-  | TConfigure t => t <> 0
-  | TResume t => t <> 0 /\ Z.land (t_pending (tm st t)) 1 = 0    (* _dispatch_source_invoke2: only when no data is pending *)
-  | TUnreg t => t <> 0
-  | TSusp t _ => t <> 0
-  | TPend _ _ => False                                            (* test-only command *)
-  | TLatch t _ => t <> 0
-  | TRun tidx _ => True
-  | TProg _ _ => True
-  | TObs => True
+  | TNew t _ => 1 <= t <= N
+  | TAfter t _ _ => 1 <= t <= N /\ t_armed (tm st t) = false      (* _dispatch_after sets the values before activation *)
+  | TCfg t _ _ _ _ => 1 <= t <= N
+  | TReg t => 1 <= t <= N
+  | TConfigure t => 1 <= t <= N
+  | TResume t => 1 <= t <= N /\ Z.land (t_pending (tm st t)) 1 = 0   (* _dispatch_source_invoke2: only when no data is pending *)
+  | TUnreg t => 1 <= t <= N
+  | TSusp t _ => 1 <= t <= N
+  | TPend _ _ => False                                              (* test-only command *)
+  | TLatch t _ => 1 <= t <= N
+  | TRun _ _ | TProg _ _ | TDrain _ _ _ | TObs => True
   end.
-Definition needs_room (st : state) (o : top) : Z :=
-  match o with TRun tidx _ => h_count (s_heaps st tidx) + 1 | _ => 1 end.
 
-Theorem tstep_G n st o :
-  GInv st -> guard st o -> room st (needs_room st o) -> GInv (fst (tstep n st o)).
+Theorem tstep_G n st o : GInv st -> guard st o -> GInv (fst (tstep n st o)).
 Proof.
-  intros G Gd R. destruct o; cbn [tstep guard needs_room fst] in *.
-  - (* TNew *)
-    assert (G1 : GInv (if t_armed (tm st t) then unregister st t else st) /\
+  intros G Gd. destruct o; cbn [tstep guard fst] in *.
+  - assert (G1 : GInv (if t_armed (tm st t) then unregister st t else st) /\
                  t_armed (tm (if t_armed (tm st t) then unregister st t else st) t) = false).
     { destruct (t_armed (tm st t)) eqn:A; [|auto]. split; [apply unregister_G; auto|].
       unfold unregister. rewrite A, tm_set_timer_eq. cbn [t_armed with_ident]. rewrite disarm_tm, Z.eqb_refl. reflexivity. }
     destruct G1 as [G1 A1]. apply set_notarmed_G; auto.
-  - destruct Gd as [Nz A]. apply set_notarmed_G; auto.
+  - destruct Gd as [Ht A]. apply set_notarmed_G; auto.
   - unfold set_cfg. apply set_same_G; auto. intros A. apply G. exact A.
   - unfold register. destruct (t_cfg (tm st t)); auto. apply configure_G; auto.
   - apply configure_G; auto.
-  - destruct Gd as [Nz P]. apply resume_G; auto.
+  - destruct Gd as [Ht P]. apply resume_G; auto.
   - apply unregister_G; auto.
   - apply set_same_G; auto. intros A. apply G. exact A.
   - contradiction.
   - destruct (latch st t now) as [st' d] eqn:E. cbn [fst]. change st' with (fst (st', d)). rewrite <- E. apply latch_G; auto.
-  - destruct (timers_run st tidx now) as [[st' ev] fin] eqn:E. cbn [fst].
-    unfold timers_run in E. eapply run_loop_G; eauto.
-    assert (Hc : 0 <= h_count (s_heaps st tidx)) by (destruct (iv_cnt _ _ _ (gi_heaps _ G tidx)); lia).
-    rewrite Nat2Z.inj_add, Z2Nat.id by lia. exact R.
-  - unfold program_if_needed. destruct (h_np (s_heaps st tidx)); [|auto].
-    destruct (program st tidx now) as [st' c] eqn:E. cbn [fst]. change st' with (fst (st', c)). rewrite <- E. apply program_G; auto.
+  - pose proof (timers_run_G st tidx now G) as G1. destruct (timers_run st tidx now) as [[st' ev] fin]. exact G1.
+  - pose proof (program_if_needed_G st tidx now G) as G1. destruct (program_if_needed st tidx now) as [st' c]. exact G1.
+  - set (nows := fun c : Z => if c =? 0 then n0 else if c =? 1 then n1 else n2).
+    pose proof (drain_G 16 st nows [] [] G) as G1. destruct (drain 16 st nows [] []) as [[[st' ev] calls] fin]. exact G1.
   - auto.
 Qed.
 
 Lemma GInv_init : GInv init_state.
 Proof.
-  constructor; try reflexivity; try (intros t A; discriminate).
+  constructor; try (intros t A; discriminate).
   intros tidx. apply (Inv_iff (keyof (s_timers init_state)) _ (fun _ => False) _ _ (Inv_empty _)); [|tauto].
   intros u. unfold member. split; [tauto|]. intros [_ [A _]]. discriminate.
 Qed.
 
-(* every history: any sequence of operations issued under the callers' guards, starting from the initial state, on
-   which the heaps are never filled up to their 2^31 - 26 cells *)
+(* every history: any sequence of operations issued under the callers' guards, starting from the initial state *)
 Fixpoint valid_run (n : Z) (st : state) (ops : list top) : Prop :=
   match ops with
   | [] => True
-  | o :: r => guard st o /\ room st (needs_room st o) /\ valid_run n (fst (tstep n st o)) r
+  | o :: r => guard st o /\ valid_run n (fst (tstep n st o)) r
   end.
 Definition run_ops (n : Z) (st : state) (ops : list top) : state := fold_left (fun s o => fst (tstep n s o)) ops st.
 
 Theorem GInv_reachable n : forall ops st, GInv st -> valid_run n st ops -> GInv (run_ops n st ops).
 Proof.
   induction ops as [|o r IH]; intros st G V; cbn [run_ops fold_left valid_run] in *; auto.
-  destruct V as [Gd [R V]]. apply IH; auto. apply tstep_G; auto.
+  destruct V as [Gd V]. apply IH; auto. apply tstep_G; auto.
 Qed.
+End Sys.
+
+Theorem state_invariant_reachable : forall N n ops,
+  0 <= N /\ 2 * N + 2 <= CAPMAX ->
+  valid_run N n init_state ops -> GInv N (run_ops n init_state ops).
+Proof. intros N n ops HN V. apply (GInv_reachable N HN n ops init_state (GInv_init N HN) V). Qed.
+
+Theorem run_fixpoint_sys : forall N st tidx now st' ev,
+  0 <= N /\ 2 * N + 2 <= CAPMAX ->
+  GInv N st -> timers_run st tidx now = (st', ev, true) ->
+  GInv N st' /\ forall t, member st' tidx t -> now < t_target (tm st' t).
+Proof. intros N st tidx now st' ev HN. exact (run_fixpoint_G N HN st tidx now st' ev). Qed.
